@@ -162,6 +162,14 @@ def gen(rng, tier):
             if n > 9000 and sched == [1]:
                 continue
             cases.append(case(msg + FOLLOW[1] + FOLLOW[0], sched))
+    # bodies longer than small_body_len are received into a file when the handler asks for them: complete, with bytes
+    # behind them, and cut by the client's end-of-stream at 0 / 1 / half / 65536 / len-1 (must be Truncated, never a
+    # shorter body)
+    for n in (65537, 70000, 131073):
+        full = bytes((i * 11 + 5) % 253 for i in range(n))
+        for have in (0, 1, n // 2, 65536, n - 1, n, n + 7):
+            body = full[:have] if have <= n else full + b"GET / H"
+            cases.append(case(render(b"POST", b"/up", [(b"Content-Length", b"%d" % n)], body), rng.choice([[], [8192], [3, 0, 4000]])))
     # truncated bodies
     for n in (1, 5, 6, 50):
         cases.append(case(render(b"POST", b"/", [(b"Content-Length", b"%d" % n)], b"hello"), rng.choice(SCHEDS)))
